@@ -118,7 +118,7 @@ def evaluate(case):
             o3, _ = s.cmd('list *')
             check_view(o3, [t for t, _ in meta], t0, case, V, 'list *')
     except Exception:
-        V.append(Violation('exception', case, {'traceback': traceback.format_exc()[-1500:]}))
+        V.append(sut.exc_violation(case))
     near = any(g in (999999, 1000000, 1000001) for g in case['gaps'])
     return Eval(V, outcome=[case['gaps'], case['visible'], len(V)], nontrivial=near and not all(case['visible']),
                 transitions=len(case['gaps']) + 3)
